@@ -53,6 +53,7 @@ MSAN_OPTIONS = 'abort_on_error=1'
 
 def build(variants=('asan',)):
     """(re)build the driver from /repo's current working tree"""
+    variants = [os.environ.get('VERIF_VARIANT_' + v.upper(), v) for v in variants]
     r = subprocess.run([os.path.join(VERIF, 'harness', 'build.sh')] + list(variants),
                        stdout=subprocess.PIPE, stderr=subprocess.STDOUT)
     if r.returncode != 0:
@@ -109,6 +110,7 @@ class Driver:
     MAXBATCH = 400 * 1024
 
     def __init__(self, variant='asan', wid=0, horizon=20.0, extra_env=None):
+        variant = os.environ.get('VERIF_VARIANT_' + variant.upper(), variant)     # e.g. VERIF_VARIANT_ASAN=cov for a coverage run
         self.variant = variant
         self.wid = wid
         self.horizon = horizon
@@ -149,6 +151,10 @@ class Driver:
         if self.p:
             try:
                 self.p.stdin.close()
+            except Exception:
+                pass
+            try:
+                self.p.wait(timeout=1.5)      # end of input: the driver leaves normally (flushes coverage data)
             except Exception:
                 pass
             try:
